@@ -496,6 +496,20 @@ func (m *Model) apply(o Op, hint *Res) Res {
 			b.Keys[o.K] = append(b.Keys[o.K], dm)
 			return Res{VID: dm.VID, Marker: true}
 		}
+	case "DeleteObjects":
+		// bulk delete: every entry ("key" or "key?ifm=<sym>") is an independent key-only delete;
+		// an entry whose precondition fails is skipped, the call as a whole succeeds
+		if m.Buckets[o.B] == nil {
+			return Res{Err: "NoSuchBucket"}
+		}
+		for _, e := range o.Parts {
+			key, opt := e, map[string]string(nil)
+			if i := strings.Index(e, "?ifm="); i >= 0 {
+				key, opt = e[:i], map[string]string{"ifm": e[i+5:]}
+			}
+			m.apply(Op{Kind: "Delete", B: o.B, K: key, Opt: opt}, nil)
+		}
+		return Res{}
 	case "Copy":
 		sb := m.Buckets[o.SB]
 		if sb == nil {
@@ -516,6 +530,9 @@ func (m *Model) apply(o Op, hint *Res) Res {
 		db := m.Buckets[o.B]
 		if db == nil {
 			return Res{Err: "NoSuchBucket"}
+		}
+		if o.Get("cus") == "echo-modified" {
+			return Res{Err: "PreconditionFailed"} // not modified since its own Last-Modified
 		}
 		if c := o.Get("class"); c != "" && !ValidClasses[c] && (hint == nil || hint.Err == "InvalidStorageClass") {
 			return Res{Err: "InvalidStorageClass"} // (class validation of writes is the HTTP layer's job: follow the implementation)
